@@ -179,6 +179,50 @@ def _prepare_locked(repo, th, cache, done, base, changed, t0):
     return cache, info
 
 
+def _subst_accessors(F):
+    """std::fstream & stream() { return m_file; } - a non-virtual method that only returns a reference to a member of this is another name
+    for the member: calls on this are replaced by the member (once, when the facts are loaded)"""
+    import copy
+    acc = {}
+    for q, lst in F.functions.items():
+        for f in lst:
+            body = f.get('body')
+            if not isinstance(body, dict) or f.get('params') or f.get('virtual') or not (f.get('ret') or '').rstrip().endswith('&'):
+                continue
+            stm = body.get('body', []) if body.get('k') == 'Compound' else [body]
+            if len(stm) != 1 or not isinstance(stm[0], dict) or stm[0].get('k') != 'Return' or stm[0].get('value') is None:
+                continue
+            v = strip_all_casts(stm[0]['value'])
+            x = v
+            while isinstance(x, dict) and x.get('k') == 'Member' and x.get('dk') == 'field':
+                x = strip_all_casts(x.get('base'))
+            if isinstance(v, dict) and v.get('k') == 'Member' and isinstance(x, dict) and x.get('k') == 'This':
+                acc[(q, f['sig'])] = v
+                f['accessor'] = True
+    if not acc:
+        return
+
+    def tr(n):
+        if isinstance(n, list):
+            return [tr(i) for i in n]
+        if not isinstance(n, dict):
+            return n
+        for k in list(n.keys()):
+            if isinstance(n[k], (dict, list)):
+                n[k] = tr(n[k])
+        if n.get('k') == 'Call' and n.get('ck') == 'member' and (n.get('callee'), n.get('csig')) in acc and not n.get('args'):
+            o = strip_all_casts(n.get('obj')) if n.get('obj') is not None else None
+            if o is None or (isinstance(o, dict) and o.get('k') == 'This'):
+                c = copy.deepcopy(acc[(n['callee'], n['csig'])])
+                c['l'] = n.get('l', c.get('l'))
+                return c
+        return n
+    for lst in F.functions.values():
+        for f in lst:
+            if isinstance(f.get('body'), dict):
+                f['body'] = tr(f['body'])
+
+
 def _subst_ref_aliases(fn):
     """`ObjectQueue<ObjectHeaderBase> & queue = m_readWriteQueue;  ObjectHeaderBase * const obj = ohb;` - a local reference bound to a member
     of this, and a const pointer copy of a parameter the function never changes, are other names for the same thing: every use is replaced
@@ -524,6 +568,7 @@ class Facts:
                 lst = self.functions.setdefault(f['name'], [])
                 if not any(g['sig'] == f['sig'] and g['file'] == f['file'] and g['line'] == f['line'] for g in lst):
                     lst.append(f)
+        _subst_accessors(self)
         for lst in self.functions.values():
             for f in lst:
                 _subst_ref_aliases(f)
